@@ -58,6 +58,9 @@ inductive Order where
   | original
   /-- `ZipSubscription::new(handler_cell, source_subscription)` — seed C02-3 -/
   | swapped
+  /-- the code's order of the halves, but throttle's leading edge as it was before fix a1fa54c: the item is emitted on
+      the leading edge whether or not it is still the stored candidate -/
+  | leadAlways
   deriving DecidableEq, Repr
 
 structure Conf where
@@ -278,9 +281,9 @@ inductive Pc where
   | th_hcell (v : Val)
   /-- `|h| h.is_closed()`: `self.0.rc_deref().value.is_some()` (handler cell still held) -/
   | th_closed (h : Nat) (v : Val)
-  /-- leading edge: `self.trailing_value.rc_deref_mut().take()` -/
+  /-- leading edge: `let taken = self.trailing_value.rc_deref_mut().take()` -/
   | th_ltrail (v : Val)
-  /-- leading edge: `self.observer.next(value)`, then `schedule` -/
+  /-- leading edge: `self.observer.next(value)` (iff `taken.is_some() || !self.edge.tailing`), then `schedule` -/
   | th_ldown (v : Val)
   -- {Debounce,Throttle}Observer::complete ---------------------------------------------------
   /-- `if let Some(value) = self.trailing_value.rc_deref_mut().take()` -/
@@ -375,6 +378,12 @@ def Conf.dur (K : Conf) : Option Nat :=
   | .debounce d | .throttle d _ | .delay d => some d
   | .observeOn => none
 
+/-- throttle has a trailing edge -/
+def Conf.tail (K : Conf) : Bool :=
+  match K.kind with
+  | .throttle _ e => e.tail
+  | _ => false
+
 /-- `…Observer::next` with the slot held -/
 def nextEntry (K : Conf) (v : Val) : Pc :=
   match K.kind with
@@ -437,7 +446,7 @@ def step (K : Conf) (s : St) : Pc → St × Pc
   | .p_fin k ready ret => (s.upd k fun x => { x with running := false, done := ready }, retPc ret)
   | .u_begin =>
     if s.subHeld then
-      ({ s with subHeld := false }, match K.order with | .original => .u_slot true | .swapped => uSecond K true)
+      ({ s with subHeld := false }, match K.order with | .original | .leadAlways => .u_slot true | .swapped => uSecond K true)
     else (s, .fin)
   | .u_end => ({ s with log := s.log ++ [.R] }, .fin)
   -- subject
@@ -466,7 +475,12 @@ def step (K : Conf) (s : St) : Pc → St × Pc
     | some h => (s, .th_closed h v)
     | none => thOver K s v
   | .th_closed h v => if (s.task h).value then thOver K s v else (s, .fin)
-  | .th_ltrail v => ({ s with trailing := none }, .th_ldown v)
+  | .th_ltrail v =>
+    -- (after repair of the duplicate of the `all` edge: with a trailing edge the item is emitted on the leading edge only
+    --  if it is STILL the candidate — the window task of the window that just ended may have delivered it meanwhile)
+    let s' := { s with trailing := none }
+    if s.trailing.isSome || !K.tail || K.order == .leadAlways then (s', .th_ldown v)
+    else let x := s'.spawn K.dur .trailing; (x.1, .hc_store x.2)
   | .th_ldown v => let x := (s.deliver (.next v)).spawn K.dur .trailing; (x.1, .hc_store x.2)
   -- complete / error of debounce, throttle (and error of delay)
   | .tc_trail =>
